@@ -488,5 +488,1148 @@ theorem Detached.free_other {s l a b} (hd : Detached s l b) (hb : b ≠ a) :
   obtain ⟨hbl, e, he⟩ := hd
   exact ⟨hbl, e, by rw [freeState_other hb]; exact he⟩
 
+
+/-! ## `pop_front` -/
+
+theorem popFrontBox_nil {s} (h : WF s []) : popFrontBox s = .ok (none, s) := by
+  simp [popFrontBox, h.head]
+
+theorem popFrontBox_spec {s l a} (h : WF s l) (hk : l[0]? = some a) :
+    ∃ s', popFrontBox s = .ok (some a, s') ∧ ((WF s' (l.eraseIdx 0) ∧ Pres s s' l (l.eraseIdx 0)) ∧
+      s'.cursor = curLeave l 0 a s.cursor ∧
+      hget s'.heap a = some ⟨none, none, elemAt s a⟩) := by
+  have ha := h.links' hk
+  have hlc := leaveCursor_spec h hk
+  have hklt := lt_of_getElem? hk
+  have hlen : ¬ s.len = 0 := by have := h.len; omega
+  have hcur := curLeave_ok h hk
+  have hal : a ∈ l := List.mem_of_getElem? hk
+  have hhead := h.head_eq
+  have htail := h.tail_eq
+  have hlen' := h.len
+  cases hnx : l[1]? with
+  | none =>
+    have hl1 := List.getElem?_eq_none_iff.mp hnx
+    apply exists_run
+    case hrun =>
+      simp [popFrontBox, hhead, hk, hlc, getNext, setPrev, setNext, decLen, ha, hnx, hget_hset, hlen]
+      rfl
+    refine ⟨wf_pres_intro h rfl rfl rfl ?_ ?_ (h.nodup.eraseIdx _) ?_ ?_ ?_ ?_ hcur, rfl, ?_⟩
+    · dq_elems
+    · dq_frame
+    · intro i b hb
+      have := lt_of_getElem? hb
+      simp only [List.length_eraseIdx] at this
+      grind
+    · simp only [List.head?_eq_getElem?, List.getElem?_eraseIdx]; grind
+    · simp only [List.getLast?_eq_getElem?, List.getElem?_eraseIdx, List.length_eraseIdx]; grind
+    · simp only [hlen', List.length_eraseIdx]; grind
+    · simp [hget_hset]
+  | some nx =>
+    have hnxn := h.links' hnx
+    have hnl : nx ∈ l := List.mem_of_getElem? hnx
+    have hl1 := lt_of_getElem? hnx
+    have hne : nx ≠ a := by
+      intro hh; subst hh; exact absurd (nodup_inj h.nodup hk hnx) (by omega)
+    apply exists_run
+    case hrun =>
+      simp [popFrontBox, hhead, hk, hlc, getNext, setPrev, setNext, decLen, ha, hnx, hget_hset, hnxn, hne, hlen]
+      rfl
+    refine ⟨wf_pres_intro h rfl rfl rfl ?_ ?_ (h.nodup.eraseIdx _) ?_ ?_ ?_ ?_ hcur, rfl, ?_⟩
+    · dq_elems
+    · dq_frame
+    · intro i b hb
+      simp only [List.getElem?_eraseIdx] at hb ⊢
+      split at hb
+      all_goals
+        have e1 := nodup_iff h.nodup hk hb
+        have e3 := nodup_iff h.nodup hnx hb
+        have hbn := h.links' hb
+        simp only [hget_hset, e1, e3, hbn]
+        grind
+    · simp only [List.head?_eq_getElem?, List.getElem?_eraseIdx]; grind
+    · simp only [htail, List.getLast?_eq_getElem?, List.getElem?_eraseIdx, List.length_eraseIdx]; grind
+    · simp only [hlen', List.length_eraseIdx]; grind
+    · simp [hget_hset]
+
+theorem not_mem_eraseIdx {l : List Nat} (hn : l.Nodup) {k a : Nat} (hk : l[k]? = some a) :
+    a ∉ l.eraseIdx k := by
+  intro hm
+  obtain ⟨i, hi⟩ := List.mem_iff_getElem?.mp hm
+  rw [List.getElem?_eraseIdx] at hi
+  split at hi
+  · have := nodup_inj hn hi hk; omega
+  · have := nodup_inj hn hi hk; omega
+
+/-- What a freeing operation guarantees besides `WF`: exactly `a` is freed. -/
+structure Frees (s s' : DState) (a : Nat) : Prop where
+  next : s'.next = s.next
+  freed : s'.freed = a :: s.freed
+  dead : hget s'.heap a = none
+  wasLive : ∃ n, hget s.heap a = some n
+  elems : ∀ b, b ≠ a → (hget s'.heap b).map (·.elem) = (hget s.heap b).map (·.elem)
+
+theorem popFront_nil {s} (h : WF s []) : popFront s = .ok (none, s) := by
+  simp [popFront, popFrontBox_nil h]
+
+theorem popFront_spec {s l a} (h : WF s l) (hk : l[0]? = some a) :
+    ∃ s', popFront s = .ok (some (a, elemAt s a), s') ∧ (WF s' l.tail ∧ Frees s s' a ∧
+      s'.cursor = curLeave l 0 a s.cursor ∧
+      (∀ b, b ∉ l → hget s'.heap b = hget s.heap b)) := by
+  obtain ⟨s1, hrun, ⟨hwf, hpres⟩, hcur, hdet⟩ := popFrontBox_spec h hk
+  have hd : Detached s1 (l.eraseIdx 0) a := ⟨not_mem_eraseIdx h.nodup hk, _, hdet⟩
+  have hal : a ∈ l := List.mem_of_getElem? hk
+  refine ⟨freeState s1 a, ?_, ?_, ?_, ?_, ?_⟩
+  · simp [popFront, hrun, hdet, freeState]
+  · have := hwf.free hd
+    simpa using this
+  · refine ⟨hpres.next, by simp [freeState, hpres.freed], freeState_self, h.live hal, ?_⟩
+    intro b hb
+    rw [freeState_other hb]; exact hpres.elems b
+  · simpa [freeState] using hcur
+  · intro b hb
+    have hba : b ≠ a := by intro hh; subst hh; exact hb hal
+    rw [freeState_other hba]
+    exact hpres.frame b hb (fun hm => hb (List.mem_of_mem_eraseIdx hm))
+
+theorem unlinkAndDrop_spec {s l k a} (h : WF s l) (hk : l[k]? = some a) :
+    ∃ s', unlinkAndDrop a s = .ok ((), s') ∧ (WF s' (l.eraseIdx k) ∧ Frees s s' a ∧
+      s'.cursor = curLeave l k a s.cursor ∧
+      (∀ b, b ∉ l → hget s'.heap b = hget s.heap b)) := by
+  obtain ⟨s1, hrun, ⟨hwf, hpres⟩, hcur, hdet⟩ := unlink_spec h hk
+  have hd : Detached s1 (l.eraseIdx k) a := ⟨not_mem_eraseIdx h.nodup hk, _, hdet⟩
+  have hal : a ∈ l := List.mem_of_getElem? hk
+  refine ⟨freeState s1 a, ?_, ?_, ?_, ?_, ?_⟩
+  · simp [unlinkAndDrop, hrun, hdet, freeState]
+  · exact hwf.free hd
+  · refine ⟨hpres.next, by simp [freeState, hpres.freed], freeState_self, h.live hal, ?_⟩
+    intro b hb
+    rw [freeState_other hb]; exact hpres.elems b
+  · simpa [freeState] using hcur
+  · intro b hb
+    have hba : b ≠ a := by intro hh; subst hh; exact hb hal
+    rw [freeState_other hba]
+    exact hpres.frame b hb (fun hm => hb (List.mem_of_mem_eraseIdx hm))
+
+
+/-! ## `push_back` -/
+
+theorem cursor_mono {c : Option Cursor} {l l' : List Nat} (hsub : ∀ a, a ∈ l → a ∈ l')
+    (hc : c = none ∨ c = some .done ∨ ∃ a, c = some (.node a) ∧ a ∈ l) :
+    c = none ∨ c = some .done ∨ ∃ a, c = some (.node a) ∧ a ∈ l' := by
+  rcases hc with hc | hc | ⟨a, hc, ha⟩
+  · exact Or.inl hc
+  · exact Or.inr (Or.inl hc)
+  · exact Or.inr (Or.inr ⟨a, hc, hsub a ha⟩)
+
+/-- `push_back` of a box: any live node that is not linked in this list. -/
+theorem pushBackBox_spec {s l a n} (h : WF s l) (hal : a ∉ l) (han : hget s.heap a = some n) :
+    ∃ s', pushBackBox a s = .ok (a, s') ∧ ((WF s' (l ++ [a]) ∧ Pres s s' l (l ++ [a])) ∧
+      s'.cursor = s.cursor) := by
+  have htail := h.tail_eq
+  have hhead := h.head_eq
+  have hlen' := h.len
+  have hnd : (l ++ [a]).Nodup := by
+    rw [List.nodup_append]
+    refine ⟨h.nodup, by simp, ?_⟩
+    intro x hx y hy
+    simp at hy; subst hy
+    intro hh; subst hh; exact hal hx
+  have hcur := cursor_mono (l' := l ++ [a]) (fun x hx => List.mem_append_left _ hx) h.cursor
+  have hel : elemAt s a = n.elem := elemAt_of han
+  rcases Nat.eq_zero_or_pos l.length with hl0 | hlpos
+  · have hl : l = [] := List.eq_nil_of_length_eq_zero hl0
+    subst hl
+    apply exists_run
+    case hrun =>
+      simp [pushBackBox, setNext, setPrev, han, htail, hget_hset]
+      rfl
+    refine ⟨wf_pres_intro h rfl rfl rfl ?_ ?_ hnd ?_ ?_ ?_ ?_ hcur, rfl⟩
+    · dq_elems
+    · intro b _ hb; simp only [hget_hset]; grind
+    · intro i b hb
+      have : i = 0 := by
+        have := lt_of_getElem? hb
+        simp only [List.length_append, List.length_nil, List.length_singleton] at this; omega
+      subst this
+      simp at hb; subst hb
+      simp [hget_hset, hel]
+    · simp
+    · simp
+    · simp [hlen']
+  · obtain ⟨t, ht⟩ : ∃ t, l[l.length - 1]? = some t := ⟨l[l.length - 1], by simp⟩
+    have htn := h.links' ht
+    have htl : t ∈ l := List.mem_of_getElem? ht
+    have hta : t ≠ a := by intro hh; subst hh; exact hal htl
+    apply exists_run
+    case hrun =>
+      simp [pushBackBox, setNext, setPrev, han, htail, ht, htn, hta, hta.symm, hget_hset]
+      rfl
+    refine ⟨wf_pres_intro h rfl rfl rfl ?_ ?_ hnd ?_ ?_ ?_ ?_ hcur, rfl⟩
+    · dq_elems
+    · intro b _ hb; simp only [hget_hset]; grind
+    · intro i b hb
+      simp only [List.getElem?_append] at hb ⊢
+      split at hb
+      · have e1 := nodup_iff h.nodup ht hb
+        have hbn := h.links' hb
+        have hba : a ≠ b := by intro hh; subst hh; exact hal (List.mem_of_getElem? hb)
+        simp only [hget_hset, e1, hbn, hba]
+        grind
+      · have hi : i = l.length := by
+          have := lt_of_getElem? hb
+          simp at this; omega
+        subst hi
+        simp at hb; subst hb
+        simp only [hget_hset]
+        grind
+    · simp only [List.head?_eq_getElem?, List.getElem?_append]; grind
+    · simp
+    · simp [hlen']
+
+/-- State after `alloc n`. -/
+def allocState (s : DState) (n : Node) : DState :=
+  { s with heap := hset s.heap s.next (some n), next := s.next + 1 }
+
+/-- The allocation counter is never a live address and was never freed: a fresh address is
+really fresh, and a freed address is never handed out again. -/
+theorem alloc_fresh {s l} (h : WF s l) :
+    hget s.heap s.next = none ∧ s.next ∉ s.freed ∧ s.next ∉ l := by
+  refine ⟨?_, ?_, ?_⟩
+  · cases hn : hget s.heap s.next with
+    | none => rfl
+    | some n => exact absurd (h.bound _ _ hn) (Nat.lt_irrefl _)
+  · intro hf; exact absurd (h.freedDead _ hf).2 (Nat.lt_irrefl _)
+  · intro hm
+    obtain ⟨n, hn⟩ := h.live hm
+    exact absurd (h.bound _ _ hn) (Nat.lt_irrefl _)
+
+theorem WF.alloc {s l} (h : WF s l) (n : Node) : WF (allocState s n) l := by
+  obtain ⟨hf1, hf2, hf3⟩ := alloc_fresh h
+  refine
+    { nodup := h.nodup, links := ?_, head := h.head, tail := h.tail, len := h.len,
+      cursor := h.cursor, fault := h.fault, bound := ?_, freedNodup := h.freedNodup,
+      freedDead := ?_ }
+  · intro i b hb
+    have hba : s.next ≠ b := by intro hh; subst hh; exact hf3 (List.mem_of_getElem? hb)
+    simpa [allocState, hget_hset, hba] using h.links i b hb
+  · intro b m hm
+    by_cases hba : s.next = b
+    · subst hba; simp [allocState]
+    · simp [allocState, hget_hset, hba] at hm
+      have := h.bound b m hm
+      simp [allocState]; omega
+  · intro b hb
+    have hb' : b ∈ s.freed := hb
+    have hba : s.next ≠ b := by intro hh; subst hh; exact hf2 hb'
+    have := h.freedDead b hb'
+    simp [allocState, hget_hset, hba, this.1]; omega
+
+/-- What `push_back` of a new element guarantees besides `WF`. -/
+structure Allocs (s s' : DState) (e : Nat) : Prop where
+  next : s'.next = s.next + 1
+  freed : s'.freed = s.freed
+  wasDead : hget s.heap s.next = none
+  elem : (hget s'.heap s.next).map (·.elem) = some e
+  elems : ∀ b, b ≠ s.next → (hget s'.heap b).map (·.elem) = (hget s.heap b).map (·.elem)
+
+theorem pushBack_spec {s l} (h : WF s l) (e : Nat) :
+    ∃ s', pushBack e s = .ok (s.next, s') ∧ (WF s' (l ++ [s.next]) ∧ Allocs s s' e ∧
+      s'.cursor = s.cursor ∧
+      (∀ b, b ∉ l → b ≠ s.next → hget s'.heap b = hget s.heap b)) := by
+  obtain ⟨hf1, hf2, hf3⟩ := alloc_fresh h
+  have h0 := h.alloc ⟨none, none, e⟩
+  have hlive : hget (allocState s ⟨none, none, e⟩).heap s.next = some ⟨none, none, e⟩ := by
+    simp [allocState, hget_hset]
+  obtain ⟨s', hrun, ⟨hwf, hpres⟩, hcur⟩ := pushBackBox_spec h0 hf3 hlive
+  have hother : ∀ b, b ≠ s.next → hget (allocState s ⟨none, none, e⟩).heap b = hget s.heap b := by
+    intro b hb; simp [allocState, hget_hset, Ne.symm hb]
+  refine ⟨s', ?_, hwf, ?_, ?_, ?_⟩
+  · have : pushBack e s = pushBackBox s.next (allocState s ⟨none, none, e⟩) := by
+      simp [pushBack, allocState]
+    rw [this]; exact hrun
+  · refine ⟨by simp [hpres.next, allocState], by simp [hpres.freed, allocState], hf1, ?_, ?_⟩
+    · rw [hpres.elems, hlive]; rfl
+    · intro b hb; rw [hpres.elems, hother b hb]
+  · simpa [allocState] using hcur
+  · intro b hb hbn
+    rw [hpres.frame b hb (by simp [hb, hbn]), hother b hbn]
+
+
+/-! ## `move_to_back` -/
+
+theorem moveToBack_last {s l k a} (h : WF s l) (hk : l[k]? = some a) (hlast : k + 1 = l.length) :
+    moveToBack a s = .ok ((), s) := by
+  have ha := h.links' hk
+  have hk' : l.length - 1 = k := by omega
+  simp [moveToBack, touch, isTail, ha, h.tail_eq, hk', hk]
+
+theorem eraseIdx_last_append {l : List Nat} {k a : Nat} (hk : l[k]? = some a)
+    (hlast : k + 1 = l.length) : l.eraseIdx k ++ [a] = l := by
+  apply List.ext_getElem?
+  intro i
+  simp only [List.getElem?_append, List.getElem?_eraseIdx, List.length_eraseIdx]
+  have := lt_of_getElem? hk
+  grind
+
+theorem curLeave_ok_append {s l k a} (h : WF s l) (hk : l[k]? = some a) :
+    curLeave l k a s.cursor = none ∨ curLeave l k a s.cursor = some .done ∨
+      ∃ b, curLeave l k a s.cursor = some (.node b) ∧ b ∈ l.eraseIdx k ++ [a] :=
+  cursor_mono (fun x hx => List.mem_append_left _ hx) (curLeave_ok h hk)
+
+theorem moveToBack_inner {s l k a} (h : WF s l) (hk : l[k]? = some a) (hin : k + 1 < l.length) :
+    ∃ s', moveToBack a s = .ok ((), s') ∧
+      ((WF s' (l.eraseIdx k ++ [a]) ∧ Pres s s' l (l.eraseIdx k ++ [a])) ∧
+      s'.cursor = curLeave l k a s.cursor) := by
+  have ha := h.links' hk
+  have hlc := leaveCursor_spec h hk
+  have hcur := curLeave_ok_append h hk
+  have hal : a ∈ l := List.mem_of_getElem? hk
+  have hklt := lt_of_getElem? hk
+  have hhead := h.head_eq
+  have htail := h.tail_eq
+  have hlen' := h.len
+  have hnd : (l.eraseIdx k ++ [a]).Nodup := by
+    rw [List.nodup_append]
+    refine ⟨h.nodup.eraseIdx k, by simp, ?_⟩
+    intro x hx y hy
+    simp at hy; subst hy
+    intro hh; subst hh; exact not_mem_eraseIdx h.nodup hk hx
+  obtain ⟨nx, hnx⟩ : ∃ nx, l[k+1]? = some nx := ⟨l[k+1], by simp [hin]⟩
+  have hnxn := h.links' hnx
+  have hnl : nx ∈ l := List.mem_of_getElem? hnx
+  have hne : nx ≠ a := by
+    intro hh; subst hh; exact absurd (nodup_inj h.nodup hk hnx) (by omega)
+  obtain ⟨t, ht⟩ : ∃ t, l[l.length - 1]? = some t := ⟨l[l.length - 1], by simp <;> omega⟩
+  have htn := h.links' ht
+  have htl : t ∈ l := List.mem_of_getElem? ht
+  have hta : t ≠ a := by
+    intro hh; subst hh; exact absurd (nodup_inj h.nodup hk ht) (by omega)
+  rcases Nat.eq_zero_or_pos k with hk0 | hkpos
+  · subst hk0
+    by_cases hlen2 : l.length = 2
+    · -- the successor is the tail
+      have htnx : t = nx := by
+        have : l.length - 1 = 1 := by omega
+        rw [this, hnx] at ht; exact (Option.some.inj ht).symm
+      subst htnx
+      apply exists_run
+      case hrun =>
+        simp [moveToBack, touch, isTail, hlc, getPrev, getNext, setPrev, setNext, ha, hnx, htail, ht, htn,
+          hta, hta.symm, hget_hset]
+        rfl
+      refine ⟨wf_pres_intro h rfl rfl rfl ?_ ?_ hnd ?_ ?_ ?_ ?_ hcur, rfl⟩
+      · dq_elems
+      · dq_frame
+      · intro i b hb
+        simp only [List.getElem?_append, List.getElem?_eraseIdx, List.length_eraseIdx, hklt, ↓reduceIte] at hb ⊢
+        split at hb
+        · split at hb
+          all_goals
+            have e1 := nodup_iff h.nodup hk hb
+            have e3 := nodup_iff h.nodup hnx hb
+            have hbn := h.links' hb
+            simp only [hget_hset, e1, e3, hbn]
+            grind
+        · have hi : i = l.length - 1 := by
+            have := lt_of_getElem? hb
+            simp only [List.length_singleton] at this; omega
+          subst hi
+          have hba : b = a := by simp at hb; exact hb.symm
+          subst hba
+          simp only [hget_hset]
+          grind
+      · simp only [List.head?_eq_getElem?, List.getElem?_append, List.getElem?_eraseIdx, List.length_eraseIdx, hklt, ↓reduceIte]; grind
+      · simp
+      · simp only [hlen', List.length_append, List.length_eraseIdx, List.length_singleton]; grind
+    · -- the successor is not the tail
+      have htnx : t ≠ nx := by
+        intro hh; subst hh; exact absurd (nodup_inj h.nodup hnx ht) (by omega)
+      apply exists_run
+      case hrun =>
+        simp [moveToBack, touch, isTail, hlc, getPrev, getNext, setPrev, setNext, ha, hnx, hnxn, htail, ht, htn,
+          hta, hta.symm, hne, hne.symm, htnx, htnx.symm, hget_hset]
+        rfl
+      refine ⟨wf_pres_intro h rfl rfl rfl ?_ ?_ hnd ?_ ?_ ?_ ?_ hcur, rfl⟩
+      · dq_elems
+      · dq_frame
+      · intro i b hb
+        simp only [List.getElem?_append, List.getElem?_eraseIdx, List.length_eraseIdx, hklt, ↓reduceIte] at hb ⊢
+        split at hb
+        · split at hb
+          all_goals
+            have e1 := nodup_iff h.nodup hk hb
+            have e3 := nodup_iff h.nodup hnx hb
+            have e4 := nodup_iff h.nodup ht hb
+            have hbn := h.links' hb
+            simp only [hget_hset, e1, e3, e4, hbn]
+            grind
+        · have hi : i = l.length - 1 := by
+            have := lt_of_getElem? hb
+            simp only [List.length_singleton] at this; omega
+          subst hi
+          have hba : b = a := by simp at hb; exact hb.symm
+          subst hba
+          simp only [hget_hset]
+          grind
+      · simp only [List.head?_eq_getElem?, List.getElem?_append, List.getElem?_eraseIdx, List.length_eraseIdx, hklt, ↓reduceIte]; grind
+      · simp
+      · simp only [hlen', List.length_append, List.length_eraseIdx, List.length_singleton]; grind
+  · obtain ⟨k', rfl⟩ : ∃ k', k = k' + 1 := ⟨k - 1, by omega⟩
+    obtain ⟨p, hp⟩ : ∃ p, l[k']? = some p := ⟨l[k'], by simp <;> omega⟩
+    have hpn := h.links' hp
+    have hpl : p ∈ l := List.mem_of_getElem? hp
+    have hpa : p ≠ a := by
+      intro hh; subst hh; exact absurd (nodup_inj h.nodup hk hp) (by omega)
+    have hpnx : p ≠ nx := by
+      intro hh; subst hh; exact absurd (nodup_inj h.nodup hnx hp) (by omega)
+    have hpt : p ≠ t := by
+      intro hh; subst hh; exact absurd (nodup_inj h.nodup ht hp) (by omega)
+    by_cases hlen2 : l.length = k' + 3
+    · have htnx : t = nx := by
+        have : l.length - 1 = k' + 1 + 1 := by omega
+        rw [this, hnx] at ht; exact (Option.some.inj ht).symm
+      subst htnx
+      apply exists_run
+      case hrun =>
+        simp [moveToBack, touch, isTail, hlc, getPrev, getNext, setPrev, setNext, ha, hnx, htail, ht, htn,
+          hp, hpn, hpa, hpa.symm, hpt, hpt.symm, hta, hta.symm, hget_hset]
+        rfl
+      refine ⟨wf_pres_intro h rfl rfl rfl ?_ ?_ hnd ?_ ?_ ?_ ?_ hcur, rfl⟩
+      · dq_elems
+      · dq_frame
+      · intro i b hb
+        simp only [List.getElem?_append, List.getElem?_eraseIdx, List.length_eraseIdx, hklt, ↓reduceIte] at hb ⊢
+        split at hb
+        · split at hb
+          all_goals
+            have e1 := nodup_iff h.nodup hk hb
+            have e2 := nodup_iff h.nodup hp hb
+            have e3 := nodup_iff h.nodup hnx hb
+            have hbn := h.links' hb
+            simp only [hget_hset, e1, e2, e3, hbn]
+            grind
+        · have hi : i = l.length - 1 := by
+            have := lt_of_getElem? hb
+            simp only [List.length_singleton] at this; omega
+          subst hi
+          have hba : b = a := by simp at hb; exact hb.symm
+          subst hba
+          simp only [hget_hset]
+          grind
+      · simp only [List.head?_eq_getElem?, List.getElem?_append, List.getElem?_eraseIdx, List.length_eraseIdx, hklt, ↓reduceIte]; grind
+      · simp
+      · simp only [hlen', List.length_append, List.length_eraseIdx, List.length_singleton]; grind
+    · have htnx : t ≠ nx := by
+        intro hh; subst hh; exact absurd (nodup_inj h.nodup hnx ht) (by omega)
+      apply exists_run
+      case hrun =>
+        simp [moveToBack, touch, isTail, hlc, getPrev, getNext, setPrev, setNext, ha, hnx, hnxn, htail, ht, htn,
+          hp, hpn, hpa, hpa.symm, hpt, hpt.symm, hpnx, hpnx.symm, hta, hta.symm, hne, hne.symm, htnx, htnx.symm,
+          hget_hset]
+        rfl
+      refine ⟨wf_pres_intro h rfl rfl rfl ?_ ?_ hnd ?_ ?_ ?_ ?_ hcur, rfl⟩
+      · dq_elems
+      · dq_frame
+      · intro i b hb
+        simp only [List.getElem?_append, List.getElem?_eraseIdx, List.length_eraseIdx, hklt, ↓reduceIte] at hb ⊢
+        split at hb
+        · split at hb
+          all_goals
+            have e1 := nodup_iff h.nodup hk hb
+            have e2 := nodup_iff h.nodup hp hb
+            have e3 := nodup_iff h.nodup hnx hb
+            have e4 := nodup_iff h.nodup ht hb
+            have hbn := h.links' hb
+            simp only [hget_hset, e1, e2, e3, e4, hbn]
+            grind
+        · have hi : i = l.length - 1 := by
+            have := lt_of_getElem? hb
+            simp only [List.length_singleton] at this; omega
+          subst hi
+          have hba : b = a := by simp at hb; exact hb.symm
+          subst hba
+          simp only [hget_hset]
+          grind
+      · simp only [List.head?_eq_getElem?, List.getElem?_append, List.getElem?_eraseIdx, List.length_eraseIdx, hklt, ↓reduceIte]; grind
+      · simp
+      · simp only [hlen', List.length_append, List.length_eraseIdx, List.length_singleton]; grind
+
+
+theorem moveFrontToBack_nil {s} (h : WF s []) : moveFrontToBack s = .ok ((), s) := by
+  simp [moveFrontToBack, h.head]
+
+theorem moveFrontToBack_eq {s l a} (h : WF s l) (hk : l[0]? = some a) :
+    moveFrontToBack s = moveToBack a s := by
+  simp [moveFrontToBack, h.head_eq, hk]
+
+/-! ## Iterator -/
+
+/-- Cursor after yielding the node at index `j`. -/
+def curAfter (l : List Nat) (j : Nat) : Option Cursor :=
+  match l[j+1]? with
+  | some b => some (.node b)
+  | none => some .done
+
+theorem iterNext_at {s l c j} (h : WF s l) (hc : s.cursor = some (.node c)) (hj : l[j]? = some c) :
+    iterNext s = .ok (some (c, elemAt s c), { s with cursor := curAfter l j }) := by
+  have hcn := h.links' hj
+  cases hnx : l[j+1]? <;>
+    simp [iterNext, hc, getElem, advanceCursor, getNext, hcn, hnx, curAfter]
+
+theorem iterNext_done {s l} (h : WF s l) (hc : s.cursor = some .done) :
+    iterNext s = .ok (none, { s with cursor := none }) := by
+  simp [iterNext, hc, advanceCursor]
+
+theorem iterNext_start_nil {s} (h : WF s []) (hc : s.cursor = none) :
+    iterNext s = .ok (none, s) := by
+  have hh : s.head = none := by simpa using h.head
+  simp [iterNext, hc, hh, advanceCursor]
+  cases s; simp_all
+
+theorem iterNext_start {s l a} (h : WF s l) (hc : s.cursor = none) (hk : l[0]? = some a) :
+    iterNext s = .ok (some (a, elemAt s a), { s with cursor := curAfter l 0 }) := by
+  have han := h.links' hk
+  cases hnx : l[0+1]? <;>
+    simp [iterNext, hc, h.head_eq, hk, getElem, advanceCursor, getNext, han, hnx, curAfter]
+
+theorem curAfter_ok (l : List Nat) (j : Nat) :
+    curAfter l j = none ∨ curAfter l j = some .done ∨
+      ∃ a, curAfter l j = some (.node a) ∧ a ∈ l := by
+  unfold curAfter
+  cases hnx : l[j+1]? with
+  | none => simp
+  | some b => exact Or.inr (Or.inr ⟨b, rfl, List.mem_of_getElem? hnx⟩)
+
+theorem WF.setCursor {s l} (h : WF s l) (c : Option Cursor)
+    (hc : c = none ∨ c = some .done ∨ ∃ a, c = some (.node a) ∧ a ∈ l) :
+    WF { s with cursor := c } l :=
+  { h with cursor := hc }
+
+/-- `n` consecutive calls of `next`. -/
+def iterRun : Nat → M (List (Option (Nat × Nat)))
+  | 0 => pure []
+  | n + 1 => do
+    let x ← iterNext
+    let xs ← iterRun n
+    pure (x :: xs)
+
+theorem iterRun_from {s l} (h : WF s l) :
+    ∀ d j c, d + j = l.length → l[j]? = some c → s.cursor = some (.node c) →
+      iterRun (d + 1) s =
+        .ok ((l.drop j).map (fun a => some (a, elemAt s a)) ++ [none], { s with cursor := none }) := by
+  intro d
+  induction d generalizing s with
+  | zero =>
+    intro j c hd hj hc
+    have := lt_of_getElem? hj
+    omega
+  | succ d ih =>
+    intro j c hd hj hc
+    have hstep := iterNext_at h hc hj
+    have hdrop : l.drop j = c :: l.drop (j + 1) := by
+      have hlt := lt_of_getElem? hj
+      rw [List.drop_eq_getElem_cons hlt]
+      congr 1
+      exact (List.getElem?_eq_some_iff.mp hj).2
+    have hwf' := h.setCursor (curAfter l j) (curAfter_ok l j)
+    cases hnx : l[j+1]? with
+    | none =>
+      have hlen := List.getElem?_eq_none_iff.mp hnx
+      have hd0 : d = 0 := by omega
+      subst hd0
+      have hca : curAfter l j = some .done := by simp [curAfter, hnx]
+      have hdn := iterNext_done hwf' (by simp [hca])
+      have hdrop2 : l.drop (j + 1) = [] := List.drop_eq_nil_of_le hlen
+      simp [iterRun, hstep, hdn, hdrop, hdrop2]
+    | some b =>
+      have hca : curAfter l j = some (.node b) := by simp [curAfter, hnx]
+      have := ih hwf' (j + 1) b (by omega) hnx (by simp [hca])
+      have hel : ∀ x, elemAt { s with cursor := curAfter l j } x = elemAt s x := fun x => rfl
+      simp only [hel] at this
+      rw [iterRun]
+      simp [hstep, this, hdrop]
+
+/-- Starting with no cursor, `length + 1` calls of `next` yield the nodes of `l` front to back
+(address and element), then `None`, and leave the state exactly as it was (cursor `None` again,
+so the next call starts over). -/
+theorem iterRun_all {s l} (h : WF s l) (hc : s.cursor = none) :
+    iterRun (l.length + 1) s =
+      .ok (l.map (fun a => some (a, elemAt s a)) ++ [none], s) := by
+  cases hl : l with
+  | nil =>
+    subst hl
+    simp [iterRun, iterNext_start_nil h hc]
+  | cons a t =>
+    subst hl
+    have hk : (a :: t)[0]? = some a := by simp
+    have hstep := iterNext_start h hc hk
+    have hwf' := h.setCursor (curAfter (a :: t) 0) (curAfter_ok _ 0)
+    have hs : ({ s with cursor := none } : DState) = s := by cases s; simp_all
+    cases hnx : (a :: t)[0+1]? with
+    | none =>
+      have hlen := List.getElem?_eq_none_iff.mp hnx
+      have ht : t = [] := by
+        simp only [List.length_cons] at hlen; exact List.eq_nil_of_length_eq_zero (by omega)
+      subst ht
+      have hca : curAfter [a] 0 = some .done := by simp [curAfter]
+      have hdn := iterNext_done hwf' (by simp [hca])
+      simp [iterRun, hstep, hdn, hs]
+    | some b =>
+      have hca : curAfter (a :: t) 0 = some (.node b) := by simp only [curAfter, hnx]
+      have htl : 0 < t.length := by
+        have := lt_of_getElem? hnx; simp only [List.length_cons] at this; omega
+      have := iterRun_from hwf' t.length 1 b (by simp only [List.length_cons]) hnx
+        (by simp [hca])
+      have hel : ∀ x, elemAt { s with cursor := curAfter (a :: t) 0 } x = elemAt s x := fun x => rfl
+      simp only [hel] at this
+      have hlenEq : (a :: t).length + 1 = (t.length + 1) + 1 := by
+        simp only [List.length_cons]
+      rw [hlenEq, iterRun]
+      simp [hstep, this, hs]
+
+
+/-! ## `Drop` -/
+
+theorem dropLoop_spec : ∀ (l : List Nat) (s : DState) (fuel : Nat), WF s l → l.length < fuel →
+    ∃ s', dropLoop fuel s = .ok ((), s') ∧ WF s' [] ∧
+      s'.freed = l.reverse ++ s.freed ∧ s'.next = s.next ∧
+      (∀ a, a ∈ l → hget s'.heap a = none) ∧
+      (∀ b, b ∉ l → hget s'.heap b = hget s.heap b) := by
+  intro l
+  induction l with
+  | nil =>
+    intro s fuel h hf
+    obtain ⟨f, rfl⟩ : ∃ f, fuel = f + 1 := ⟨fuel - 1, by simp at hf; omega⟩
+    refine ⟨s, ?_, h, by simp, rfl, by simp, fun _ _ => rfl⟩
+    simp [dropLoop, popFront_nil h]
+  | cons a t ih =>
+    intro s fuel h hf
+    obtain ⟨f, rfl⟩ : ∃ f, fuel = f + 1 := ⟨fuel - 1, by simp at hf; omega⟩
+    have hk : (a :: t)[0]? = some a := by simp
+    obtain ⟨s1, hrun, hwf, hfr, _, hframe⟩ := popFront_spec h hk
+    have hwf' : WF s1 t := by simpa using hwf
+    obtain ⟨s2, hrun2, hwf2, hfreed2, hnext2, hdead2, hframe2⟩ :=
+      ih s1 f hwf' (by simp at hf; omega)
+    have hat : a ∉ t := (List.nodup_cons.mp h.nodup).1
+    refine ⟨s2, ?_, hwf2, ?_, by rw [hnext2, hfr.next], ?_, ?_⟩
+    · simp [dropLoop, hrun, hrun2]
+    · rw [hfreed2, hfr.freed]; simp
+    · intro b hb
+      rcases List.mem_cons.mp hb with hb | hb
+      · subst hb; rw [hframe2 b hat]; exact hfr.dead
+      · exact hdead2 b hb
+    · intro b hb
+      have hbt : b ∉ t := fun hm => hb (List.mem_cons_of_mem _ hm)
+      rw [hframe2 b hbt, hframe b hb]
+
+/-- `Drop`: every node of `l` is freed exactly once (the log grows by `l`, in pop order, and
+`WF` keeps it duplicate-free), nothing else is touched, and the list is empty afterwards. -/
+theorem dropAll_spec {s l} (h : WF s l) :
+    ∃ s', dropAll s = .ok ((), s') ∧ WF s' [] ∧
+      s'.freed = l.reverse ++ s.freed ∧ s'.next = s.next ∧
+      (∀ a, a ∈ l → hget s'.heap a = none) ∧
+      (∀ b, b ∉ l → hget s'.heap b = hget s.heap b) := by
+  obtain ⟨s', hrun, rest⟩ := dropLoop_spec l s (s.len + 1) h (by rw [h.len]; omega)
+  exact ⟨s', by simp [dropAll, hrun], rest⟩
+
+
+/-! ## List-level statements -/
+
+theorem getElem?_idxOf {l : List Nat} {a : Nat} (h : a ∈ l) : l[l.idxOf a]? = some a := by
+  grind
+
+theorem erase_eq (l : List Nat) (a : Nat) : l.erase a = l.eraseIdx (l.idxOf a) :=
+  List.erase_eq_eraseIdx_of_idxOf rfl
+
+/-- Successor of `a` in `l`. -/
+def succOf (l : List Nat) (a : Nat) : Option Nat := l[l.idxOf a + 1]?
+
+/-- List-level cursor update when `a` leaves its position in `l` (it is unlinked, popped or
+moved to the back): a cursor at `a` steps to the successor of `a`, or to `Done`. -/
+def leave (l : List Nat) (a : Nat) (c : Option Cursor) : Option Cursor :=
+  if c = some (.node a) then
+    (match succOf l a with
+     | some b => some (.node b)
+     | none => some .done)
+  else c
+
+theorem leave_eq (l : List Nat) (a : Nat) (c : Option Cursor) :
+    leave l a c = curLeave l (l.idxOf a) a c := rfl
+
+theorem leave_ne {l : List Nat} (hn : l.Nodup) {a : Nat} (ha : a ∈ l) (c : Option Cursor) :
+    leave l a c ≠ some (.node a) := by
+  intro hc
+  rw [leave_eq] at hc
+  have h1 := curLeave_ne hc
+  have := nodup_inj hn h1 (getElem?_idxOf ha)
+  omega
+
+theorem getLast?_eq_some_iff {l : List Nat} (hn : l.Nodup) {a : Nat} (ha : a ∈ l) :
+    l.getLast? = some a ↔ l.idxOf a + 1 = l.length := by
+  have hk := getElem?_idxOf ha
+  have hlt := lt_of_getElem? hk
+  rw [List.getLast?_eq_getElem?]
+  constructor
+  · intro h; have := nodup_inj hn h hk; omega
+  · intro h
+    have : l.length - 1 = l.idxOf a := by omega
+    rw [this]; exact hk
+
+theorem nextNodePtr_ok {s l a} (h : WF s l) (ha : a ∈ l) :
+    nextNodePtr a s = .ok (succOf l a, s) :=
+  nextNodePtr_spec h (getElem?_idxOf ha)
+
+theorem unlink_ok {s l a} (h : WF s l) (ha : a ∈ l) :
+    ∃ s', unlink a s = .ok ((), s') ∧ WF s' (l.erase a) ∧ Pres s s' l (l.erase a) ∧
+      s'.cursor = leave l a s.cursor ∧ Detached s' (l.erase a) a := by
+  have hk := getElem?_idxOf ha
+  obtain ⟨s', hrun, ⟨hwf, hpres⟩, hcur, hdet⟩ := unlink_spec h hk
+  rw [← erase_eq] at hwf hpres
+  refine ⟨s', hrun, hwf, hpres, hcur, ?_, _, hdet⟩
+  rw [erase_eq]; exact not_mem_eraseIdx h.nodup hk
+
+theorem unlinkAndDrop_ok {s l a} (h : WF s l) (ha : a ∈ l) :
+    ∃ s', unlinkAndDrop a s = .ok ((), s') ∧ WF s' (l.erase a) ∧ Frees s s' a ∧
+      s'.cursor = leave l a s.cursor ∧ (∀ b, b ∉ l → hget s'.heap b = hget s.heap b) := by
+  have hk := getElem?_idxOf ha
+  obtain ⟨s', hrun, hwf, hfr, hcur, hframe⟩ := unlinkAndDrop_spec h hk
+  rw [← erase_eq] at hwf
+  exact ⟨s', hrun, hwf, hfr, hcur, hframe⟩
+
+theorem popFront_ok {s a t} (h : WF s (a :: t)) :
+    ∃ s', popFront s = .ok (some (a, elemAt s a), s') ∧ WF s' t ∧ Frees s s' a ∧
+      s'.cursor = leave (a :: t) a s.cursor ∧
+      (∀ b, b ∉ a :: t → hget s'.heap b = hget s.heap b) := by
+  have hk : (a :: t)[0]? = some a := by simp
+  obtain ⟨s', hrun, hwf, hfr, hcur, hframe⟩ := popFront_spec h hk
+  have hidx : (a :: t).idxOf a = 0 := by simp
+  refine ⟨s', hrun, by simpa using hwf, hfr, ?_, hframe⟩
+  rw [leave_eq, hidx]; exact hcur
+
+theorem moveToBack_ok {s l a} (h : WF s l) (ha : a ∈ l) :
+    ∃ s', moveToBack a s = .ok ((), s') ∧ WF s' (l.erase a ++ [a]) ∧
+      Pres s s' l (l.erase a ++ [a]) ∧
+      s'.cursor = if l.getLast? = some a then s.cursor else leave l a s.cursor := by
+  have hk := getElem?_idxOf ha
+  have hlt := lt_of_getElem? hk
+  by_cases hlast : l.idxOf a + 1 = l.length
+  · have hl := (getLast?_eq_some_iff h.nodup ha).mpr hlast
+    have hlist : l.erase a ++ [a] = l := by rw [erase_eq]; exact eraseIdx_last_append hk hlast
+    refine ⟨s, moveToBack_last h hk hlast, by rw [hlist]; exact h, ?_, by simp [hl]⟩
+    exact ⟨rfl, rfl, rfl, fun _ => rfl, fun _ _ _ => rfl⟩
+  · have hl : ¬ l.getLast? = some a := fun hh => hlast ((getLast?_eq_some_iff h.nodup ha).mp hh)
+    obtain ⟨s', hrun, ⟨hwf, hpres⟩, hcur⟩ := moveToBack_inner h hk (by omega)
+    rw [← erase_eq] at hwf hpres
+    exact ⟨s', hrun, hwf, hpres, by simp [hl, leave_eq, hcur]⟩
+
+
+/-! ## Arbitrary sequences of list-level commands -/
+
+/-- What the owner of a deque (a cache) can do with it. Node arguments are addresses. -/
+inductive Cmd where
+  | push (e : Nat)            -- `push_back(Box::new(DeqNode::new(e)))`
+  | popFront                  -- `pop_front()` and drop of the box
+  | peekFront
+  | contains (a : Nat)
+  | moveToBack (a : Nat)
+  | moveFrontToBack
+  | unlink (a : Nat)          -- the node stays live and is owned by the caller
+  | relinkBack (a : Nat)      -- `push_back` of a box obtained from `unlink`
+  | unlinkAndDrop (a : Nat)
+  | dropDetached (a : Nat)    -- caller-side drop of a node obtained from `unlink`
+  | nextOf (a : Nat)          -- `DeqNode::next_node_ptr`
+  | iterNext
+  deriving Repr, DecidableEq
+
+/-- Results. `node` carries an address together with the element stored there. -/
+inductive Out where
+  | unit
+  | bool (b : Bool)
+  | addr (a : Option Nat)
+  | node (n : Option (Nat × Nat))
+  deriving Repr, DecidableEq
+
+/-- The model side: one command in the monad. -/
+def mstep : Cmd → M Out
+  | .push e => do pure (.addr (some (← pushBack e)))
+  | .popFront => do pure (.node (← popFront))
+  | .peekFront => do pure (.addr (← peekFront))
+  | .contains a => do pure (.bool (← contains a))
+  | .moveToBack a => do moveToBack a; pure .unit
+  | .moveFrontToBack => do moveFrontToBack; pure .unit
+  | .unlink a => do unlink a; pure .unit
+  | .relinkBack a => do pure (.addr (some (← pushBackBox a)))
+  | .unlinkAndDrop a => do unlinkAndDrop a; pure .unit
+  | .dropDetached a => do let _ ← free a; pure .unit
+  | .nextOf a => do pure (.addr (← nextNodePtr a))
+  | .iterNext => do pure (.node (← iterNext))
+
+def mrun : List Cmd → M (List Out)
+  | [] => pure []
+  | c :: cs => do
+    let o ← mstep c
+    let os ← mrun cs
+    pure (o :: os)
+
+/-- The reference side: plain lists. -/
+structure RState where
+  l : List Nat := []                 -- the deque, front to back
+  det : List Nat := []               -- unlinked nodes that are still live
+  cur : Option Cursor := none
+  n : Nat := 0                       -- next fresh address
+  freed : List Nat := []             -- addresses freed so far, newest first
+  elems : List (Nat × Nat) := []     -- element of every address ever allocated
+  deriving Repr, DecidableEq
+
+def RState.elemOf (r : RState) (a : Nat) : Nat := (AL.get? r.elems a).getD 0
+
+def rmoveToBack (r : RState) (a : Nat) : RState :=
+  if r.l.getLast? = some a then r
+  else { r with l := r.l.erase a ++ [a], cur := leave r.l a r.cur }
+
+/-- `Iterator::next` on lists: `None → Node(head) → … → Done → None`. -/
+def riterNext (r : RState) : RState × Option (Nat × Nat) :=
+  match (if r.cur = none then r.l.head?.map Cursor.node else r.cur) with
+  | some (.node x) =>
+    ({ r with cur := match succOf r.l x with
+                     | some b => some (.node b)
+                     | none => some .done },
+      some (x, r.elemOf x))
+  | _ => ({ r with cur := none }, none)
+
+def rstep (r : RState) : Cmd → RState × Out
+  | .push e =>
+    ({ r with l := r.l ++ [r.n], n := r.n + 1, elems := (r.n, e) :: r.elems }, .addr (some r.n))
+  | .popFront =>
+    match r.l with
+    | [] => (r, .node none)
+    | a :: t =>
+      ({ r with l := t, cur := leave (a :: t) a r.cur, freed := a :: r.freed },
+        .node (some (a, r.elemOf a)))
+  | .peekFront => (r, .addr r.l.head?)
+  | .contains a => (r, .bool (decide (a ∈ r.l)))
+  | .moveToBack a => (rmoveToBack r a, .unit)
+  | .moveFrontToBack =>
+    match r.l.head? with
+    | none => (r, .unit)
+    | some a => (rmoveToBack r a, .unit)
+  | .unlink a =>
+    ({ r with l := r.l.erase a, det := a :: r.det, cur := leave r.l a r.cur }, .unit)
+  | .relinkBack a => ({ r with l := r.l ++ [a], det := r.det.erase a }, .addr (some a))
+  | .unlinkAndDrop a =>
+    ({ r with l := r.l.erase a, cur := leave r.l a r.cur, freed := a :: r.freed }, .unit)
+  | .dropDetached a => ({ r with det := r.det.erase a, freed := a :: r.freed }, .unit)
+  | .nextOf a => (r, .addr (succOf r.l a))
+  | .iterNext => ((riterNext r).1, .node (riterNext r).2)
+
+def rrun (r : RState) : List Cmd → RState × List Out
+  | [] => (r, [])
+  | c :: cs =>
+    let (r1, o) := rstep r c
+    let (r2, os) := rrun r1 cs
+    (r2, o :: os)
+
+/-- The preconditions the Rust callers guarantee. -/
+def Legal (r : RState) : Cmd → Prop
+  | .contains a => a ∈ r.l ∨ a ∈ r.det
+  | .moveToBack a => a ∈ r.l
+  | .unlink a => a ∈ r.l
+  | .unlinkAndDrop a => a ∈ r.l
+  | .nextOf a => a ∈ r.l
+  | .relinkBack a => a ∈ r.det
+  | .dropDetached a => a ∈ r.det
+  | _ => True
+
+instance (r : RState) (c : Cmd) : Decidable (Legal r c) := by
+  cases c <;> unfold Legal <;> infer_instance
+
+def LegalSeq : RState → List Cmd → Prop
+  | _, [] => True
+  | r, c :: cs => Legal r c ∧ LegalSeq (rstep r c).1 cs
+
+/-- The simulation invariant between model state and reference state. -/
+structure Sim (s : DState) (r : RState) : Prop where
+  wf : WF s r.l
+  cur : s.cursor = r.cur
+  next : s.next = r.n
+  freed : s.freed = r.freed
+  det : ∀ a, a ∈ r.det → Detached s r.l a
+  detNodup : r.det.Nodup
+  elems : ∀ a n, hget s.heap a = some n → AL.get? r.elems a = some n.elem
+
+theorem Sim.elemOf {s r} (h : Sim s r) {a n} (ha : hget s.heap a = some n) :
+    r.elemOf a = elemAt s a := by
+  simp [RState.elemOf, h.elems a n ha, elemAt_of ha]
+
+theorem sim_new : Sim new {} :=
+  ⟨new_wf, rfl, rfl, rfl, by intro a h; simp at h, List.nodup_nil,
+    by intro a n h; simp [new, hget] at h⟩
+
+/-- Relinking operations keep the `elems` table valid. -/
+theorem Pres.elems_ok {s s' l l'} (hp : Pres s s' l l') {el : List (Nat × Nat)}
+    (h : ∀ a n, hget s.heap a = some n → AL.get? el a = some n.elem) :
+    ∀ a n, hget s'.heap a = some n → AL.get? el a = some n.elem := by
+  intro a n hn
+  have := hp.elems a
+  rw [hn] at this
+  cases h2 : hget s.heap a with
+  | none => simp [h2] at this
+  | some m =>
+    simp [h2] at this
+    rw [this]; exact h a m h2
+
+theorem Frees.elems_ok {s s' x} (hp : Frees s s' x) {el : List (Nat × Nat)}
+    (h : ∀ a n, hget s.heap a = some n → AL.get? el a = some n.elem) :
+    ∀ a n, hget s'.heap a = some n → AL.get? el a = some n.elem := by
+  intro a n hn
+  by_cases hax : a = x
+  · subst hax; rw [hp.dead] at hn; cases hn
+  · have := hp.elems a hax
+    rw [hn] at this
+    cases h2 : hget s.heap a with
+    | none => simp [h2] at this
+    | some m =>
+      simp [h2] at this
+      rw [this]; exact h a m h2
+
+
+theorem sim_moveToBack {s r a} (h : Sim s r) (ha : a ∈ r.l) :
+    ∃ s', moveToBack a s = .ok ((), s') ∧ Sim s' (rmoveToBack r a) := by
+  obtain ⟨s', hrun, hwf, hpres, hcur⟩ := moveToBack_ok h.wf ha
+  refine ⟨s', hrun, ?_⟩
+  unfold rmoveToBack
+  by_cases hl : r.l.getLast? = some a
+  · have hlist : r.l.erase a ++ [a] = r.l := by
+      rw [erase_eq]
+      exact eraseIdx_last_append (getElem?_idxOf ha) ((getLast?_eq_some_iff h.wf.nodup ha).mp hl)
+    rw [hlist] at hwf hpres
+    simp only [hl, if_true] at hcur ⊢
+    exact ⟨hwf, hcur.trans h.cur, hpres.next.trans h.next, hpres.freed.trans h.freed,
+      fun b hb => hpres.detached (h.det b hb) (h.det b hb).1, h.detNodup, hpres.elems_ok h.elems⟩
+  · simp only [hl, if_false] at hcur ⊢
+    refine ⟨hwf, by rw [hcur, h.cur], hpres.next.trans h.next, hpres.freed.trans h.freed, ?_,
+      h.detNodup, hpres.elems_ok h.elems⟩
+    intro b hb
+    have hd := h.det b hb
+    refine hpres.detached hd ?_
+    intro hm
+    rcases List.mem_append.mp hm with hm | hm
+    · exact hd.1 (List.mem_of_mem_erase hm)
+    · simp at hm; subst hm; exact hd.1 ha
+
+theorem idxOf_eq {l : List Nat} (hn : l.Nodup) {j a : Nat} (hj : l[j]? = some a) :
+    l.idxOf a = j :=
+  nodup_inj hn (getElem?_idxOf (List.mem_of_getElem? hj)) hj
+
+theorem Sim.withCur {s r} (h : Sim s r) (c : Option Cursor)
+    (hc : c = none ∨ c = some .done ∨ ∃ a, c = some (.node a) ∧ a ∈ r.l) :
+    Sim { s with cursor := c } { r with cur := c } :=
+  ⟨h.wf.setCursor c hc, rfl, h.next, h.freed, h.det, h.detNodup, h.elems⟩
+
+theorem sim_iterNext {s r} (h : Sim s r) :
+    ∃ s', iterNext s = .ok ((riterNext r).2, s') ∧ Sim s' (riterNext r).1 := by
+  have hwf := h.wf
+  have hcur := h.cur
+  rcases hwf.cursor with hc | hc | ⟨c, hc, hcl⟩
+  · have hrc : r.cur = none := by rw [← hcur]; exact hc
+    cases hl0 : r.l with
+    | nil =>
+      have hh : s.head = none := by rw [hwf.head, hl0]; rfl
+      refine ⟨{ s with cursor := none }, ?_, ?_⟩
+      · simp [iterNext, hc, hh, advanceCursor, riterNext, hrc, hl0]
+      · simpa [riterNext, hrc, hl0] using h.withCur none (Or.inl rfl)
+    | cons a t =>
+      have hk : r.l[0]? = some a := by simp [hl0]
+      have hstep := iterNext_start hwf hc hk
+      have hidx := idxOf_eq hwf.nodup hk
+      obtain ⟨na, hna⟩ := hwf.live (List.mem_of_getElem? hk)
+      have hel := h.elemOf hna
+      have hs := h.withCur (curAfter r.l 0) (curAfter_ok _ _)
+      rw [hl0] at hidx hs
+      have h2 : (riterNext r).2 = some (a, elemAt s a) := by
+        simp [riterNext, hrc, hl0, hel]
+      rw [h2]
+      refine ⟨_, hstep, ?_⟩
+      simpa [riterNext, hrc, hl0, succOf, hidx, curAfter] using hs
+  · have hrc : r.cur = some .done := by rw [← hcur]; exact hc
+    have h2 : (riterNext r).2 = none := by simp [riterNext, hrc]
+    rw [h2]
+    refine ⟨_, iterNext_done hwf hc, ?_⟩
+    simpa [riterNext, hrc] using h.withCur none (Or.inl rfl)
+  · have hrc : r.cur = some (.node c) := by rw [← hcur]; exact hc
+    obtain ⟨j, hj⟩ := List.mem_iff_getElem?.mp hcl
+    have hstep := iterNext_at hwf hc hj
+    have hidx := idxOf_eq hwf.nodup hj
+    obtain ⟨nc, hnc⟩ := hwf.live hcl
+    have hel := h.elemOf hnc
+    have hs := h.withCur (curAfter r.l j) (curAfter_ok _ _)
+    have h2 : (riterNext r).2 = some (c, elemAt s c) := by
+      simp [riterNext, hrc, hel]
+    rw [h2]
+    refine ⟨_, hstep, ?_⟩
+    simpa [riterNext, hrc, succOf, hidx, curAfter] using hs
+
+theorem sim_step {s r c} (h : Sim s r) (hl : Legal r c) :
+    ∃ s', mstep c s = .ok ((rstep r c).2, s') ∧ Sim s' (rstep r c).1 := by
+  cases c with
+  | push e =>
+    obtain ⟨s', hrun, hwf, hal, hcur, hframe⟩ := pushBack_spec h.wf e
+    refine ⟨s', by simp [mstep, hrun, rstep, h.next], ?_⟩
+    simp only [rstep]
+    rw [← h.next]
+    refine ⟨hwf, hcur.trans h.cur, hal.next, hal.freed.trans h.freed, ?_, h.detNodup, ?_⟩
+    · intro b hb
+      obtain ⟨hbl, eb, heb⟩ := h.det b hb
+      have hbn : b ≠ s.next := by
+        have := h.wf.bound b _ heb; omega
+      refine ⟨by simp [hbl, hbn], eb, ?_⟩
+      rw [hframe b hbl hbn]; exact heb
+    · intro a n hn
+      by_cases han : a = s.next
+      · subst han
+        have := hal.elem
+        rw [hn] at this
+        simp at this
+        simp [AL.get?, this]
+      · have := hal.elems a han
+        rw [hn] at this
+        have hne : ¬ s.next = a := fun hh => han hh.symm
+        cases h2 : hget s.heap a with
+        | none => simp [h2] at this
+        | some m =>
+          simp [h2] at this
+          simp [AL.get?, hne, this, h.elems a m h2]
+  | popFront =>
+    cases hlist : r.l with
+    | nil =>
+      have hwf := h.wf
+      rw [hlist] at hwf
+      refine ⟨s, by simp [mstep, popFront_nil hwf, rstep, hlist], ?_⟩
+      simp only [rstep, hlist]
+      exact h
+    | cons a t =>
+      have hwf := h.wf
+      rw [hlist] at hwf
+      obtain ⟨s', hrun, hwf', hfr, hcur, hframe⟩ := popFront_ok hwf
+      obtain ⟨na, hna⟩ := hfr.wasLive
+      have hel := h.elemOf hna
+      refine ⟨s', by simp [mstep, hrun, rstep, hlist, hel], ?_⟩
+      simp only [rstep, hlist]
+      refine ⟨hwf', by rw [hcur, h.cur], hfr.next.trans h.next, by rw [hfr.freed, h.freed], ?_,
+        h.detNodup, hfr.elems_ok h.elems⟩
+      intro b hb
+      obtain ⟨hbl, eb, heb⟩ := h.det b hb
+      rw [hlist] at hbl
+      refine ⟨fun hm => hbl (List.mem_cons_of_mem _ hm), eb, ?_⟩
+      rw [hframe b hbl]; exact heb
+  | peekFront =>
+    exact ⟨s, by simp [mstep, peekFront_spec h.wf, rstep], h⟩
+  | contains a =>
+    have hpre : a ∈ r.l ∨ Detached s r.l a := by
+      rcases hl with hl | hl
+      · exact Or.inl hl
+      · exact Or.inr (h.det a hl)
+    exact ⟨s, by simp [mstep, contains_spec h.wf hpre, rstep], h⟩
+  | moveToBack a =>
+    obtain ⟨s', hrun, hsim⟩ := sim_moveToBack h hl
+    exact ⟨s', by simp [mstep, hrun, rstep], hsim⟩
+  | moveFrontToBack =>
+    cases hhd : r.l.head? with
+    | none =>
+      have hnil : r.l = [] := List.head?_eq_none_iff.mp hhd
+      have hwf := h.wf
+      rw [hnil] at hwf
+      refine ⟨s, by simp [mstep, moveFrontToBack_nil hwf, rstep, hhd], ?_⟩
+      simp only [rstep, hhd]; exact h
+    | some a =>
+      have hk : r.l[0]? = some a := by rw [← List.head?_eq_getElem?]; exact hhd
+      have ha : a ∈ r.l := List.mem_of_getElem? hk
+      obtain ⟨s', hrun, hsim⟩ := sim_moveToBack h ha
+      refine ⟨s', by simp [mstep, moveFrontToBack_eq h.wf hk, hrun, rstep, hhd], ?_⟩
+      simp only [rstep, hhd]; exact hsim
+  | unlink a =>
+    have ha : a ∈ r.l := hl
+    obtain ⟨s', hrun, hwf, hpres, hcur, hdet⟩ := unlink_ok h.wf ha
+    refine ⟨s', by simp [mstep, hrun, rstep], ?_⟩
+    simp only [rstep]
+    refine ⟨hwf, by rw [hcur, h.cur], hpres.next.trans h.next, hpres.freed.trans h.freed, ?_, ?_,
+      hpres.elems_ok h.elems⟩
+    · intro b hb
+      rcases List.mem_cons.mp hb with hb | hb
+      · subst hb; exact hdet
+      · have hd := h.det b hb
+        exact hpres.detached hd (fun hm => hd.1 (List.mem_of_mem_erase hm))
+    · refine List.nodup_cons.mpr ⟨?_, h.detNodup⟩
+      intro hm; exact (h.det a hm).1 ha
+  | relinkBack a =>
+    have ha : a ∈ r.det := hl
+    obtain ⟨hal, ea, hea⟩ := h.det a ha
+    obtain ⟨s', hrun, ⟨hwf, hpres⟩, hcur⟩ := pushBackBox_spec h.wf hal hea
+    refine ⟨s', by simp [mstep, hrun, rstep], ?_⟩
+    simp only [rstep]
+    refine ⟨hwf, hcur.trans h.cur, hpres.next.trans h.next, hpres.freed.trans h.freed, ?_,
+      h.detNodup.erase a, hpres.elems_ok h.elems⟩
+    intro b hb
+    have hb' := (h.detNodup.mem_erase_iff).mp hb
+    have hd := h.det b hb'.2
+    refine hpres.detached hd ?_
+    simp [hd.1, hb'.1]
+  | unlinkAndDrop a =>
+    have ha : a ∈ r.l := hl
+    obtain ⟨s', hrun, hwf, hfr, hcur, hframe⟩ := unlinkAndDrop_ok h.wf ha
+    refine ⟨s', by simp [mstep, hrun, rstep], ?_⟩
+    simp only [rstep]
+    refine ⟨hwf, by rw [hcur, h.cur], hfr.next.trans h.next, by rw [hfr.freed, h.freed], ?_,
+      h.detNodup, hfr.elems_ok h.elems⟩
+    intro b hb
+    obtain ⟨hbl, eb, heb⟩ := h.det b hb
+    refine ⟨fun hm => hbl (List.mem_of_mem_erase hm), eb, ?_⟩
+    rw [hframe b hbl]; exact heb
+  | dropDetached a =>
+    have ha : a ∈ r.det := hl
+    have hd := h.det a ha
+    obtain ⟨_, ea, hea⟩ := id hd
+    refine ⟨freeState s a, by simp [mstep, rstep, hea, freeState], ?_⟩
+    simp only [rstep]
+    refine ⟨h.wf.free hd, h.cur, h.next, by simp [freeState, h.freed], ?_, h.detNodup.erase a, ?_⟩
+    · intro b hb
+      have hb' := (h.detNodup.mem_erase_iff).mp hb
+      exact (h.det b hb'.2).free_other hb'.1
+    · intro b n hn
+      by_cases hba : b = a
+      · subst hba; rw [freeState_self] at hn; cases hn
+      · rw [freeState_other hba] at hn; exact h.elems b n hn
+  | nextOf a =>
+    exact ⟨s, by simp [mstep, nextNodePtr_ok h.wf hl, rstep], h⟩
+  | iterNext =>
+    obtain ⟨s', hrun, hsim⟩ := sim_iterNext h
+    exact ⟨s', by simp [mstep, hrun, rstep], hsim⟩
+
+
+theorem sim_run : ∀ (cmds : List Cmd) (s : DState) (r : RState), Sim s r → LegalSeq r cmds →
+    ∃ s', mrun cmds s = .ok ((rrun r cmds).2, s') ∧ Sim s' (rrun r cmds).1 := by
+  intro cmds
+  induction cmds with
+  | nil => intro s r h _; exact ⟨s, rfl, h⟩
+  | cons c cs ih =>
+    intro s r h hl
+    obtain ⟨hl1, hl2⟩ := hl
+    obtain ⟨s1, hrun1, hsim1⟩ := sim_step h hl1
+    obtain ⟨s2, hrun2, hsim2⟩ := ih s1 _ hsim1 hl2
+    refine ⟨s2, ?_, ?_⟩
+    · simp [mrun, hrun1, hrun2, rrun]
+    · simpa [rrun] using hsim2
+
+/-- Running any legal command sequence on a fresh deque: no fault, the results are those of
+the list interpreter, and the final heap encodes the final list. -/
+theorem run_legal (cmds : List Cmd) (hl : LegalSeq {} cmds) :
+    ∃ s, mrun cmds new = .ok ((rrun {} cmds).2, s) ∧ Sim s (rrun {} cmds).1 :=
+  sim_run cmds new {} sim_new hl
+
+theorem exec_ok {α : Type} {m : M α} {s s' : DState} {a : α} (hf : s.fault = none)
+    (h : m s = .ok (a, s')) : exec m s = (s', some a) := by
+  simp [exec, hf, h]
+
 end DequeHeap
 end MiniMoka
